@@ -31,6 +31,7 @@ def plan(tier, seed):
         for p in range(32):
             sh.append({"kind": "maps", "alo": 2 * p, "ahi": 2 * (p + 1), "data": "more"})
     sh.append({"kind": "builders"})
+    sh.append({"kind": "user-events"})
     return sh
 
 
@@ -320,6 +321,64 @@ def _builder_trial(seed, trial, res):
                 break
 
 
+def run_user_events(seed, res):
+    """An application adds its own event classes (a vendor's instance type, helper bases): frames of the types the library
+    knows, unmapped device/instance frames and frames of still unknown types decode as before; frames of the new type
+    decode through the new class from then on."""
+    from dali import command, frame
+    import dali.device.general as dg
+    _imports()
+    r = rng(seed, "C12", "user-events")
+
+    def dec(v, m=None):
+        return command.from_frame(frame.ForwardFrame(24, v), dev_inst_map=m)
+    probes = []
+    for _ in range(300):
+        scheme = r.choice(["device", "instance", "device_instance", "device_group", "instance_group"])
+        t = r.choice([1, 3, 4, 6, 6, 7, 0, 31])
+        d = r.getrandbits(10)
+        kw = {"device": dict(short_address=r.randrange(64)), "instance": dict(instance_number=r.randrange(32)),
+              "device_instance": dict(short_address=r.randrange(64), instance_number=r.randrange(32)),
+              "device_group": dict(device_group=r.randrange(32)), "instance_group": dict(instance_group=r.randrange(32))}[scheme]
+        probes.append((scheme, t, d, E.encode_event(scheme, None if scheme == "device_instance" else t, d, **kw)))
+    before = {v: (type(dec(v)).__name__, str(dec(v))) for (_s, _t, _d, v) in probes}
+    v6 = E.encode_event("device", 6, 0x155, short_address=9)
+    probes.insert(0, ("device", 6, 0x155, v6))
+    before[v6] = (type(dec(v6)).__name__, str(dec(v6)))       # the last frame decoded before the new classes exist is of the new type
+    # helper classes that do not name an instance type of their own
+    type("VendorUnknown", (dg.UnknownEvent,), {"__module__": "application"})
+    type("VendorEventBase", (dg._Event,), {"__module__": "application"})
+
+    def from_event_data(cls, event_data):
+        return cls
+
+    def _set_event_data(self, set_data, set_frame):
+        self._event_info = set_data
+        set_frame[9:0] = set_data
+    # modelled on the library's own LightEvent: one class for the type, the 10 bits are its data
+    Vendor6 = type("Vendor6Event", (dg._Event,), {"__module__": "application", "_instance_type": 6, "_event_info": 0,
+                                                  "from_event_data": classmethod(from_event_data),
+                                                  "_set_event_data": _set_event_data,
+                                                  "event_data": property(lambda self: self._event_info)})
+    for scheme, t, d, v in probes:
+        res.evaluations += 1
+        res.hit("user_event_probes")
+        try:
+            now = dec(v)
+        except Exception as e:
+            res.violation(f"C12/user-events/raised/{type(e).__name__}", f"after an application defined its own event classes, decoding "
+                          f"{v:#08x} ({scheme}, type {t}) raised {type(e).__name__}: {e}", {"frame": v, "scheme": scheme})
+            continue
+        if scheme != "device_instance" and t == 6:
+            if type(now) is not Vendor6:
+                res.violation("C12/user-events/new-type-not-used", f"frame {v:#08x} carries instance type 6, for which the application registered "
+                              f"a class; it decodes as {type(now).__name__}", {"frame": v})
+        elif (type(now).__name__, str(now)) != before[v]:
+            res.violation("C12/user-events/other-frames-changed", f"frame {v:#08x} ({scheme}, type {t}) decoded as {before[v][1]} before the "
+                          f"application defined its own event classes and as {now} afterwards", {"frame": v, "scheme": scheme})
+    res.sample({"user_events": "VendorUnknown(UnknownEvent), VendorEventBase(_Event), Vendor6Event(type 6)", "probes": len(probes)})
+
+
 def run_shard(desc, tier, seed):
     res = Result()
     if "replay" in desc:
@@ -335,6 +394,8 @@ def run_shard(desc, tier, seed):
         run_space(desc, tier, seed, res)
     elif k == "maps":
         run_maps(desc, tier, seed, res)
+    elif k == "user-events":
+        run_user_events(seed, res)
     else:
         run_builders(seed, res)
     return res
